@@ -756,16 +756,33 @@ def run_property(reg, tier="quick", seed=0, jobs=None, only=None, level="proof",
     tasks = [(i, seed, tier) for i in idx]
     if jobs > 1 and len(tasks) > 1:
         ctx = mp.get_context("fork")
-        with ctx.Pool(min(jobs, len(tasks))) as pool:
-            if os.environ.get("VERIF_PROGRESS"):
-                results = []
-                for r in pool.imap_unordered(_worker, tasks, chunksize=1):
+        # no obligation of any check needs more than a few minutes; if NO result arrives for this long, something (usually
+        # code under test that no longer terminates) hangs: the missing obligations become 'undecided' instead of blocking the check
+        limit = float(os.environ.get("VERIF_STALL_S", "1200" if tier == "quick" else "5400"))
+        pool = ctx.Pool(min(jobs, len(tasks)))
+        results = []
+        try:
+            itr = pool.imap_unordered(_worker, tasks, chunksize=1)
+            for _ in range(len(tasks)):
+                try:
+                    r = itr.next(timeout=limit)
+                except mp.TimeoutError:
+                    done = {r["name"] for r in results}
+                    for (i, _s, _t) in tasks:
+                        ob = reg.obls[i]
+                        if ob.name not in done:
+                            results.append({"name": ob.name, "kind": ob.kind, "expect": ob.expect, "labels": {}, "paths": 0, "verdict": "undecided",
+                                            "crash": f"undecided: no result within {limit:.0f} s (the code under execution does not terminate, or the machine is overloaded)",
+                                            "native_samples": 0, "native_failures": [], "wall_s": limit, "note": ob.note, "solver_s": 0.0})
+                    break
+                if os.environ.get("VERIF_PROGRESS"):
                     print(f"  .. {r['verdict']:<18} {r['wall_s']:>8}s paths={r['paths']:<6} {r['name']}", flush=True)
-                    results.append(r)
-                order = {reg.obls[i].name: n for n, (i, _, _) in enumerate(tasks)}
-                results.sort(key=lambda r: order.get(r["name"], 0))
-            else:
-                results = pool.map(_worker, tasks, chunksize=1)
+                results.append(r)
+        finally:
+            pool.terminate()
+            pool.join()
+        order = {reg.obls[i].name: n for n, (i, _, _) in enumerate(tasks)}
+        results.sort(key=lambda r: order.get(r["name"], 0))
     else:
         results = [_worker(t) for t in tasks]
     kf = load_known_findings()
